@@ -1934,8 +1934,6 @@ func (d *decoderBincBytes) kSlice(f *decFnInfo, rv reflect.Value) {
 				rv, rvCanset = rvMakeSlice(rv, f.ti, rvlen, rvlen)
 				rvcap = rvlen
 				rvChanged = !rvCanset
-			} else {
-				halt.errorStr("cannot decode into non-settable slice")
 			}
 			if rvChanged && oldRvlenGtZero && rtelem0Mut {
 				rvCopySlice(rv, rv0, rtelem)
@@ -1987,20 +1985,21 @@ func (d *decoderBincBytes) kSlice(f *decFnInfo, rv reflect.Value) {
 		}
 
 		if j >= rvlen {
+			if !(rvCanset || rvChanged) {
+
+				d.arrayCannotExpand(rvlen, j+1)
+				d.swallow()
+				continue
+			}
 
 			if rvlen < rvcap {
 				rvlen = rvcap
 				if rvCanset {
 					rvSetSliceLen(rv, rvlen)
-				} else if rvChanged {
-					rv = rvSlice(rv, rvlen)
 				} else {
-					halt.onerror(errExpandSliceCannotChange)
+					rv = rvSlice(rv, rvlen)
 				}
 			} else {
-				if !(rvCanset || rvChanged) {
-					halt.onerror(errExpandSliceCannotChange)
-				}
 				rv, rvcap, rvCanset = rvGrowSlice(rv, f.ti, rvcap, 1)
 
 				rvlen = rvcap
@@ -6051,8 +6050,6 @@ func (d *decoderBincIO) kSlice(f *decFnInfo, rv reflect.Value) {
 				rv, rvCanset = rvMakeSlice(rv, f.ti, rvlen, rvlen)
 				rvcap = rvlen
 				rvChanged = !rvCanset
-			} else {
-				halt.errorStr("cannot decode into non-settable slice")
 			}
 			if rvChanged && oldRvlenGtZero && rtelem0Mut {
 				rvCopySlice(rv, rv0, rtelem)
@@ -6104,20 +6101,21 @@ func (d *decoderBincIO) kSlice(f *decFnInfo, rv reflect.Value) {
 		}
 
 		if j >= rvlen {
+			if !(rvCanset || rvChanged) {
+
+				d.arrayCannotExpand(rvlen, j+1)
+				d.swallow()
+				continue
+			}
 
 			if rvlen < rvcap {
 				rvlen = rvcap
 				if rvCanset {
 					rvSetSliceLen(rv, rvlen)
-				} else if rvChanged {
-					rv = rvSlice(rv, rvlen)
 				} else {
-					halt.onerror(errExpandSliceCannotChange)
+					rv = rvSlice(rv, rvlen)
 				}
 			} else {
-				if !(rvCanset || rvChanged) {
-					halt.onerror(errExpandSliceCannotChange)
-				}
 				rv, rvcap, rvCanset = rvGrowSlice(rv, f.ti, rvcap, 1)
 
 				rvlen = rvcap
